@@ -474,8 +474,8 @@ TRACK_CHECKS = [
 ]
 
 
-def rule_track_checks_unconditional(prog, fixture=False):
-    r = RuleResult("R-C06-6", "check_track_is_supported validates head, cylinder and data size of every sector: at "
+def rule_track_checks_unconditional(prog, fixture=False, rule_id="R-C06-6"):
+    r = RuleResult(rule_id, "check_track_is_supported validates head, cylinder and data size of every sector: at "
                    "the end of each iteration of its per-sector loop the three equalities are must-facts (no "
                    "check is skipped under a side condition)", floor=0 if fixture else 3)
     for fn in prog.fnby("check_track_is_supported", required=not fixture):
